@@ -33,6 +33,10 @@ def kinds_term(kinds):
     return "[" + ";".join('bs "%s"' % k for k in kinds) + "]"
 
 
+# share of modulator histories run through the real S2M/M2S wire path (sl.to_via)
+VIA_PROPS = {"C06": 0.5, "C08": 0.6, "C09": 0.6, "C17": 0.5, "C01": 0.3, "C02": 0.3, "C05": 0.2, "C18": 0.3, "C04": 0.2}
+
+
 def gen_histories(r, n, prop, lo=10, hi=36):
     cases = []
     for i in range(n):
@@ -53,7 +57,10 @@ def gen_histories(r, n, prop, lo=10, hi=36):
         ops = g.build(r.randint(lo, hi))
         if prop == "C05" or r.random() < 0.25:
             ops = ops + srvmon.audit_ops(g)
-        cases.append({"cfg": cfg, "ops": ops})
+        case = {"cfg": cfg, "ops": ops}
+        if prop in VIA_PROPS and cfg["mod"] and r.random() < VIA_PROPS[prop]:
+            case = sl.to_via(case)
+        cases.append(case)
     return cases
 
 
@@ -92,7 +99,7 @@ def shrink(case, fails):
     return {"cfg": case["cfg"], "ops": ops}
 
 
-def run(prop, theorems, tier, replay=None, extra_gen=None, known_classifier=None, rule_note=""):
+def run(prop, theorems, tier, replay=None, extra_gen=None, known_classifier=None, rule_note="", link=()):
     thorough = tier == "thorough"
     r = Rng(seed())
     kinds, mk, cl, tags = SPEC[prop]
@@ -164,7 +171,7 @@ def run(prop, theorems, tier, replay=None, extra_gen=None, known_classifier=None
             if "ops" in ob and any(o["conns"] for o in ob["ops"]):
                 distinct.add(key)
             stats["ops"] += len(c["ops"])
-            mname = "none" if not c["cfg"]["mod"] else "+".join(c["cfg"]["mod"]["ops"])
+            mname = "none" if not c["cfg"]["mod"] else "+".join(c["cfg"]["mod"]["ops"]) + (" via-s2m-link" if c["cfg"]["mod"].get("via") else "")
             stats["mod_configs"][mname] = stats["mod_configs"].get(mname, 0) + 1
             for op in c["ops"]:
                 kind = op["t"] if op["t"] != "send" else bytes.fromhex(op["bytes"]).split(b" ")[0].decode("latin1")[:24]
@@ -197,21 +204,92 @@ def run(prop, theorems, tier, replay=None, extra_gen=None, known_classifier=None
         if not samples and cases:
             samples.append({"cfg": cases[0]["cfg"], "ops": cases[0]["ops"][:6]})
 
+    link_stats = {}
+
+    def link_search(lcases, ccases, tag):
+        """modulator-link stage (lib/linklib.py): real S2M/M2S dispatchers and real S2mClient vs Model/Link.v"""
+        import linklib as ll
+        okl, mkl = coq_make(["Conf/LinkConf.vo"])
+        if not okl:
+            broken.append("Conf/LinkConf.vo does not compile: " + (mkl or "")[-800:])
+        want = set(tags) | {prop, "PANIC"}
+        if lcases:
+            obs, hout = ll.run_link(lcases, tag=tag + "l")
+            if obs is None:
+                violations.append((prop, "link harness crashed or hung: " + hout[-300:], lcases[0], 0))
+            else:
+                link_stats["link_histories"] = link_stats.get("link_histories", 0) + len(lcases)
+                link_stats["link_chunks"] = link_stats.get("link_chunks", 0) + sum(len(c["ops"]) for c in lcases)
+                for c, ob in zip(lcases, obs):
+                    k = c["kind"] + (" secret" if c["cfg"]["secret"] else " no-secret")
+                    link_stats.setdefault("link_kinds", {})
+                    link_stats["link_kinds"][k] = link_stats["link_kinds"].get(k, 0) + 1
+                    for o in ob.get("ops", []):
+                        for f in o["frames"]:
+                            if "undecodable" not in f:
+                                n = sl.frame_name(f)
+                                if n == "ERROR":
+                                    n = "ERROR:" + bytes.fromhex(sl.frame_get(f, "reason")).decode()
+                                link_stats.setdefault("link_frames_observed", {})
+                                link_stats["link_frames_observed"][n] = link_stats["link_frames_observed"].get(n, 0) + 1
+                    for (tagv, what, t) in ll.link_monitor(c, ob):
+                        if tagv in want:
+                            violations.append((tagv, what, c, t))
+                if okl:
+                    bad, cout = coq_eval(ll.PRELUDE, ll.link_conf_terms(lcases, obs), kind="bool", tag=tag + "lc")
+                    if bad is None:
+                        broken.append("link correspondence could not be evaluated: " + cout[-600:])
+                    else:
+                        for i in bad:
+                            disagreements.append({"case": lcases[i], "parsable": True})
+        if ccases:
+            obs, hout = ll.run_client(ccases, tag=tag + "k")
+            if obs is None:
+                violations.append((prop, "s2mclient harness crashed or hung: " + hout[-300:], ccases[0], 0))
+            else:
+                link_stats["client_cases"] = link_stats.get("client_cases", 0) + len(ccases)
+                for c, ob in zip(ccases, obs):
+                    for call, o in zip(c["calls"], ob.get("calls", [])):
+                        key = call["call"] + " -> " + (o["result"] if isinstance(o["result"], str) else sorted(o["result"])[0])
+                        link_stats.setdefault("client_results", {})
+                        link_stats["client_results"][key] = link_stats["client_results"].get(key, 0) + 1
+                    for (tagv, what, t) in ll.client_monitor(c, ob):
+                        if tagv in want:
+                            violations.append((tagv, what, c, t))
+                if okl:
+                    terms, index = ll.client_conf_terms(ccases, obs)
+                    bad, cout = coq_eval(ll.PRELUDE, terms, kind="bool", tag=tag + "kc")
+                    if bad is None:
+                        broken.append("client correspondence could not be evaluated: " + cout[-600:])
+                    else:
+                        for ci in sorted(set(index[b][0] for b in bad)):
+                            disagreements.append({"case": ccases[ci], "parsable": True})
+
     if replay:
         with open(replay) as f:
             rj = json.load(f)
-        search(rj.get("cases", []), "r")
+        rc = rj.get("cases", [])
+        search([c for c in rc if "kind" not in c and "calls" not in c], "r")
+        link_search([c for c in rc if "kind" in c], [c for c in rc if "calls" in c], "r")
     else:
         corpus = load_corpus(prop)
         n = 1500 if thorough else 160
         cases = corpus + gen_histories(r, n, prop) + (extra_gen(r, thorough) if extra_gen else [])
         search(cases, "q")
+        if link:
+            import linklib as ll
+            link_search(ll.gen_link_histories(r, 1500 if thorough else 150) if "link" in link else [],
+                        ll.gen_client_cases(r, 600 if thorough else 60) if "client" in link else [], "q")
         if (broken or disagreements) and not violations:
             log("proof/correspondence broken; extended search", (broken or [""])[0][:300])
             more = gen_histories(Rng(seed() + 7919), 300, prop, 10, 40)
             for d in disagreements[:20]:
-                more.append(d["case"])
+                if "kind" not in d["case"] and "calls" not in d["case"]:
+                    more.append(d["case"])
             search(more, "x")
+            if link:
+                link_search(ll.gen_link_histories(Rng(seed() + 104729), 600) if "link" in link else [],
+                            ll.gen_client_cases(Rng(seed() + 104729), 300) if "client" in link else [], "x")
 
     coverage = {
         "obligations": len(theorems), "discharged": len([t for t in theorems if closed.get(t) == "closed"]),
@@ -220,7 +298,7 @@ def run(prop, theorems, tier, replay=None, extra_gen=None, known_classifier=None
         "evaluations": stats["histories"], "distinct_nontrivial": len(distinct),
         "rule": "random mostly-valid client histories (opens, CONNECT/IDENTIFY or AUTH, joins incl. on-behalf, leaves, broadcasts with binary payloads, listings with boundary page values, ACL/config changes, direct messages, odd/out-of-phase frames, hangups; scripted modulator outcomes) run against the real in-process server under virtual time; the Coq model replays the same ops and coqc decides agreement on the frames relevant to this property (%s); distinct non-trivial = distinct op lists in which at least one frame was received. %s" % (", ".join(kinds) or "all", rule_note),
         "traces_validated_against_impl": stats["histories"], "disagreements": len(disagreements),
-        "distribution": stats, "samples": samples, "known_findings_reproduced": sorted(known_seen), "exhaustive": False,
+        "distribution": dict(stats, **link_stats), "samples": samples, "known_findings_reproduced": sorted(known_seen), "exhaustive": False,
     }
     assum = ["Model/Server.v is hand-written (sequential semantics: one client action processed to quiescence, modulator calls answered immediately from a script); tied to the code by the correspondence; HashSet iteration order (new-owner pick, clean-up order) is an oracle input taken from the observation",
              "tokio scheduling, async_lock::RwLock, DashMap atomicity are modelled, not verified; cross-thread interleavings are outside the sequential theorems"]
